@@ -804,7 +804,13 @@ func traceDB(o opts) error {
 				ent, pre = "MALFORMED:"+hx(err.Error()), "-"
 			}
 			sh.update(op, res)
-			mem := memState(w.d, w.sk)
+			// one history in five looks at the served state only after every third call: looking is
+			// itself a sequence of List and GetVersion calls, and what they leave behind in the server
+			// (a refreshed memo, say) must not be what keeps the other calls right
+			mem := "UNOBS"
+			if h%5 != 4 || s%3 == 2 || s == o.steps-1 {
+				mem = memState(w.d, w.sk)
+			}
 			if op.aok == 0 {
 				mem = "UNOBS" // the audit writer is dead from here on (see below); List cannot be called
 			}
